@@ -74,7 +74,9 @@ func newE2ERig(mgr usermanager.UserManager, bypass [][]byte, adminUID []byte) *e
 	if len(adminUID) != 0 {
 		sta.BypassUID[arr16(adminUID)] = struct{}{}
 	}
-	sta.Panel = MakeUserPanel(mgr)
+	if mgr != nil {
+		sta.Panel = MakeUserPanel(mgr)
+	}
 	r.sta = sta
 	return r
 }
